@@ -5,7 +5,7 @@ THEOREMS = {
     "Dawgs.Props.C08": [
         "Dawgs.C08.Props.context_protocol_as_modelled", "Dawgs.C08.Props.table_shape", "Dawgs.C08.Props.table_balanced",
         "Dawgs.C08.Props.filters_inert", "Dawgs.C08.Props.listener_no_panic", "Dawgs.C08.Props.listener_no_panic_derivable",
-        "Dawgs.C08.Props.listener_no_panic_recovered_partial", "Dawgs.C08.Props.listener_linear",
+        "Dawgs.C08.Props.listener_no_panic_recovered_partial", "Dawgs.C08.Props.listener_linear", "Dawgs.C08.Props.current_part_as_modelled", "Dawgs.C08.Props.parts_table_safe", "Dawgs.C08.Props.multipart_index_in_range",
         "Dawgs.C08.Props.never_nilnil_partial", "Dawgs.C08.Props.root_chain_ok", "Dawgs.C08.Props.never_nilnil",
         "Dawgs.C08.Props.never_nilnil_witness_old", "Dawgs.C08.Props.never_nilnil_refuted_old", "Dawgs.C08.Props.call_now_rejected",
         "Dawgs.C08.Props.empty_rejected", "Dawgs.C08.Props.empty_guard_present", "Dawgs.C08.Props.c08_full",
@@ -77,6 +77,11 @@ def judge(op, impl, model):
     for tag, c in (("NewContext", n), ("DefaultCypherContext", d)):
         if c.startswith("partial"):
             return "reject partial %s %s inc=%s" % (tag, _field(model or "", "empty") or "[]", _field(impl, "inc"))
+    if model and _field(model, "misattached") not in (None, "0"):
+        # Lean (counter machine on the extracted bookkeeping table, trace-tied to the real code): a clause was stored in a query part already closed by WITH
+        return "reject misattached clause-attached-to-a-closed-query-part n=%s" % _field(model, "misattached")
+    if model and _field(model, "parts_agree") == "0":
+        return "reject parts-models-disagree"
     if _field(impl, "slow") == "1":
         return "reject slow parse-took-more-than-20s"
     if model and _field(model, "steps_ok") == "0":
@@ -107,6 +112,8 @@ def finding_key(suite, ops, line, msg):
     if kind == "panic":
         m = re.search(r"panic_([nd]|scale)", msg)
         return "C08:ParseCypher:panic"
+    if kind == "misattached":
+        return "C08:MultiPartQueryVisitor:clause-attached-to-closed-part"
     if kind == "blowup":
         m = re.search(r"family=(\w+)", msg)
         return "C08:ParseCypher:super-polynomial:%s" % (m.group(1) if m else "?")
@@ -121,13 +128,13 @@ SPEC = {
     "regen": do_regen,
     "lean_modules": ["Dawgs.Props.C08"],
     "theorems_by_module": THEOREMS,
-    "gate_modules": ["Dawgs.Model.Grammar", "Dawgs.Model.C08", "Dawgs.Model.C09", "Dawgs.Spec.C08", "Dawgs.Proofs.C08", "Dawgs.Props.C08"],
+    "gate_modules": ["Dawgs.Model.Grammar", "Dawgs.Model.C08", "Dawgs.Model.C09", "Dawgs.Model.C08Parts", "Dawgs.Spec.C08", "Dawgs.Proofs.C08", "Dawgs.Proofs.C08Parts", "Dawgs.Props.C08"],
     "suites": [{"name": "c08", "model_suite": "c08", "model_input": model_input, "impl_view": impl_view, "model_view": model_view,
                 "judge": judge, "keep_prefix": 1, "timeout": 3000}],
     "nontrivial": nontrivial,
     "finding_key": finding_key,
     "panic_is_violation": False,   # panics are judged by the monitor (key C08:ParseCypher:panic), not twice
-    "rule": "cases = fixed hostile inputs (empty/whitespace incl. grammar-only whitespace, out-of-range numerals, unterminated strings/comments, "
+    "rule": "cases = multi-part queries whose parts open with every kind of updating clause (first/middle/last part, with and without reading clauses, closed by WITH/RETURN/nothing) + fixed hostile inputs (empty/whitespace incl. grammar-only whitespace, out-of-range numerals, unterminated strings/comments, "
             "every F6/F7 construct) + truncations of every repository corpus query (every offset thorough; seeded stride quick) + one-delimiter "
             "deletions/duplications/swaps + nesting families (parens, lists, NOT, AND, +, relationship chains, maps) at depths 1..64 (200 thorough) "
             "+ invalid UTF-8 / odd code points spliced at random offsets + literals of 1 KiB..16 KiB (128 KiB thorough) + token soups from the "
@@ -140,7 +147,8 @@ SPEC = {
                      "antlr.ParseTreeWalker calls EnterEveryRule / children / ExitEveryRule in that order (ANTLR)",
                      "reflection read of Context.visitorStack by the probe filter (harness/c08.go)"],
     "assumptions": ["time and memory: measured by size doubling with generous thresholds (alloc exponent > 3.2 or last doubling x40 above 2 s); polynomial bound is NOT proved",
-                    "panics inside visitor method bodies that depend on visitor fields (nil dereference, assertions on model values) are not in the Lean model; searched by the fuzz corpus only",
+                    "visitor-field state: the Parts/partIdx bookkeeping of MultiPartQueryVisitor IS modelled (counter machine, theorem multipart_index_in_range); other panics inside visitor "
+                    "method bodies that depend on visitor fields (nil dereference, assertions on model values) are not in the Lean model and are searched by the fuzz corpus only",
                     "never_nilnil is proved for the repaired listener (unsupported-rule errors for oC_StandaloneCall/oC_LoadCSV/oC_InQueryCall, hooks/C07-fix.patch) relative to the "
                     "filter/unsupported-rule error model; the refutation is kept as a theorem about the older table (never_nilnil_refuted_old)"],
     "explanation": "Lean: for every rule-labelled tree (any shape, error nodes included) the listener protocol (Context.Enter/Exit, depth counters, type-asserted pops) "
@@ -159,6 +167,9 @@ MANIFEST = {
             "Go sources) ends without a panic and with the visitor stack back at [QueryVisitor/0]: depth is 0 at every pop, every type assertion on a popped visitor holds, the stack "
             "never underflows. The proof is generic in the table and needs one decidable condition (every EnterOC_r/ExitOC_r pair is either inert or push W under g / pop W under g), "
             "re-checked by the kernel on the regenerated table, so a visitor whose Exit forgets the pop, asserts another type or tests another condition breaks lake build. "
+            "multipart_index_in_range: the Parts/partIdx bookkeeping of MultiPartQueryVisitor (which methods allocate `if len(Parts) == partIdx`, access CurrentPart(), advance — extracted per method, helpers inlined) "
+            "run as a counter machine over EVERY tree never evaluates CurrentPart() on an empty slice and always returns Parts[partIdx]; decidable table condition by abstract interpretation over "
+            "{len = idx, len = idx + 1}, so a refactor that forgets the allocation in one caller, or allocates under another condition, breaks lake build; the counters are part of the probe trace compared with the real code. "
             "listener_linear: at most (#filters+4) callbacks/stack operations per tree node. empty_rejected: Go-whitespace-only input returns an error. never_nilnil: every grammatical, "
             "complete, error-free tree of oC_Cypher yields a non-nil model — proved from a kernel-checked chain certificate on the regenerated tables (the only error-free path from the "
             "root is Cypher/Statement/Query/RegularQuery, on which QueryVisitor assigns the result); for the table before the repair it is refuted by the parse tree of `CALL foo.bar()` "
